@@ -256,6 +256,11 @@ class Prop:
             if r.fails:
                 si, name, msg = r.fails[0]
                 fail = f"{name}: {msg} [step {si}: {r.steps[si]['op']}]"
+        try:
+            H.sx(obs)
+        except RecursionError:      # a runaway copy (D06 on the unrepaired code): the observation cannot be rendered
+            obs = [-3]
+            fail = fail or "struct: the tree is nested too deeply to be observed (runaway copy)"
         return Case(desc=desc, coq_input=term, impl_obs=obs, oracle_fail=fail, nontrivial=nontrivial,
                     key=H.digest([desc["univ"], desc.get("setup"), desc.get("alts"), desc.get("ops"), desc["kind"], desc.get("only")]), stats=stats)
 
